@@ -39,7 +39,7 @@ def doc_maker(g, what, n):
     """One to three lines; sometimes a second paragraph (summaries then end in a 'Read more' link to the full text)."""
     lines = [" " + " ".join(f"zq{n}x{i}w{j}" for j in range(g.ch.count(1, 3))) for i in range(g.ch.count(1, 2))]
     if g.ch.bool(1, 3):
-        lines += ["", f" zq{n}x8w0 second paragraph"]
+        lines += ["", f" zq{n}x8w0 second paragraph" + (" [home](|url|)" if g.ch.bool(1, 4) else "")]
     g.entity_docs[n] = what
     return lines
 
@@ -102,7 +102,7 @@ def gen_options(ch, excl=()):
 def gen_pages(ch):
     """A small static page tree (C17 explores these in depth)."""
     pages = {"pages/index.md": "---\ntitle: Notes\n---\n\nTop page zq0x2w0. See [other](other.html).\n",
-             "pages/other.md": "---\ntitle: Other\n---\n\nOther page. Back to [top](index.html) or [home](|url|/index.html).\n"}
+             "pages/other.md": "---\ntitle: Other\n---\n\nOther page. Back to [top](index.html) or [home](|url|/index.html) or [site](|url|).\n"}
     if ch.bool():
         pages["pages/index.md"] += "And [sub](sub/index.html).\n"
         pages["pages/sub/index.md"] = "---\ntitle: Sub\n---\n\nSub page; up to [top](../index.html), media at |media|.\n"
@@ -115,6 +115,13 @@ def gen_case(ch: Chooser, excl=()):
     options, nondefault = gen_options(ch, excl)
     proj, g = gen.gen_project(ch, dict(shape_cfg(shape), excl=tuple(excl)))
     files, used = render.render_project(proj, ch, features={"comments": True})
+    # texts of the project file that are shown on the front page only: links in them are relative to it
+    unit = next((u for f in proj["files"] for u in f["units"] if u["k"] in ("module", "program") and u.get("name")), None)
+    extra = " [home](|url|) [idx](|url|/index.html)" + (f" [[{unit['name']}]]" if unit else "")
+    if "summary" in options and ch.bool(2, 3):
+        options["summary"] += extra
+    if "author" in options and ch.bool(1, 2):
+        options["author_description"] = "Writes *code* zq0x3w0." + extra
     classes = ["shape:" + shape] + ["opt:" + k for k in options if k not in ("project", "src_dir", "output_dir", "preprocess", "parallel")]
     if ch.bool(1, 3):
         files.update(gen_pages(ch))
@@ -165,6 +172,8 @@ def link_signature(kind, page, url):
         tdir = "/".join(parts[-2:])
     elif kind == "absolute":
         tdir = parts[-2] if len(parts) >= 2 else tfile
+        if "." not in tfile:
+            tdir = "(output-directory)"       # the bare |url| alias: the path of the output directory itself
     return f"{kind}:{pdir}->{tdir}" + (f"#{frag}" if frag else "")
 
 
